@@ -480,6 +480,9 @@ func (w *World) quiesce() {
 		w.mu.Lock()
 		w.epoch++
 		w.mu.Unlock()
+		if w.cfg.RM {
+			w.persistAll() // no fault, no lag: whatever was written meanwhile (the library's own documents) is persisted everywhere
+		}
 		acts := w.enabled()
 		// deterministic drain: first action with positive weight that is not a pure clock advance;
 		// otherwise advance the clock until the next event, until the budget is used up.
